@@ -60,7 +60,9 @@ Notation "' p <- r ;;; k" := (rbind r (fun p => k))
   (at level 61, p pattern, r at next level, right associativity) : res_scope.
 Open Scope res_scope.
 
-(* error classes (observables are compared modulo the class only) *)
+(* error classes.  The correspondence checks compare only ok / error / panic with the implementation
+   (C01/Check.v, C08/Check.v: `Err _ => status = 1`), not the class, and not the objects delivered
+   before a failing block; the classes serve the theorems and C06. *)
 Definition E_WIRE : Z := 1.      (* field has an unexpected wire type *)
 Definition E_EOF : Z := 2.       (* a column ran out: io.ErrUnexpectedEOF *)
 Definition E_OVERFLOW : Z := 3.  (* protoscan.ErrIntOverflow (Uint32 of a varint > 5 bytes) *)
